@@ -1111,3 +1111,220 @@ fn c05_blank_step() {
     assert!(lxr.pending.is_empty() && lxr.nesting == nesting && lxr.at_begin_of_line == bol);
     kani::cover!(end == 6);
 }
+
+// ---------------------------------------------------------------------------------------------
+// Keyword table (generated by build.rs) and string-prefix dispatch
+
+macro_rules! kw_is {
+    ($s:expr, $p:pat) => {
+        assert!(matches!(KEYWORDS.get($s), Some($p)));
+    };
+}
+
+// @ob id=C05.k.keyword_table_a props=C05,C03 kind=bounded tier=quick timeout=900
+// @bound the 18 keyword spellings False None True and as assert async await break case class continue def del elif else except finally, each checked concretely, plus near-misses
+// @clause an operator or keyword token is its spelling: each Python keyword (and the soft keywords) maps to its own token in the build-time table, and case variants / prefixes / extensions of keywords are not keywords
+// @fns KEYWORDS
+#[kani::proof]
+#[kani::unwind(12)]
+fn c05_keyword_table_a() {
+    kw_is!("False", Tok::False);
+    kw_is!("None", Tok::None);
+    kw_is!("True", Tok::True);
+    kw_is!("and", Tok::And);
+    kw_is!("as", Tok::As);
+    kw_is!("assert", Tok::Assert);
+    kw_is!("async", Tok::Async);
+    kw_is!("await", Tok::Await);
+    kw_is!("break", Tok::Break);
+    kw_is!("case", Tok::Case);
+    kw_is!("class", Tok::Class);
+    kw_is!("continue", Tok::Continue);
+    kw_is!("def", Tok::Def);
+    kw_is!("del", Tok::Del);
+    kw_is!("elif", Tok::Elif);
+    kw_is!("else", Tok::Else);
+    kw_is!("except", Tok::Except);
+    kw_is!("finally", Tok::Finally);
+    assert!(KEYWORDS.get("false").is_none());
+    assert!(KEYWORDS.get("none").is_none());
+    assert!(KEYWORDS.get("Def").is_none());
+    assert!(KEYWORDS.get("de").is_none());
+    assert!(KEYWORDS.get("defx").is_none());
+    assert!(KEYWORDS.get("").is_none());
+}
+
+// @ob id=C05.k.keyword_table_b props=C05,C03 kind=bounded tier=quick timeout=900
+// @bound the 18 keyword spellings for from global if import in is lambda match nonlocal not or pass raise return try type while with yield, each checked concretely, plus near-misses
+// @clause an operator or keyword token is its spelling (second half of the table)
+// @fns KEYWORDS
+#[kani::proof]
+#[kani::unwind(12)]
+fn c05_keyword_table_b() {
+    kw_is!("for", Tok::For);
+    kw_is!("from", Tok::From);
+    kw_is!("global", Tok::Global);
+    kw_is!("if", Tok::If);
+    kw_is!("import", Tok::Import);
+    kw_is!("in", Tok::In);
+    kw_is!("is", Tok::Is);
+    kw_is!("lambda", Tok::Lambda);
+    kw_is!("match", Tok::Match);
+    kw_is!("nonlocal", Tok::Nonlocal);
+    kw_is!("not", Tok::Not);
+    kw_is!("or", Tok::Or);
+    kw_is!("pass", Tok::Pass);
+    kw_is!("raise", Tok::Raise);
+    kw_is!("return", Tok::Return);
+    kw_is!("try", Tok::Try);
+    kw_is!("type", Tok::Type);
+    kw_is!("while", Tok::While);
+    kw_is!("with", Tok::With);
+    kw_is!("yield", Tok::Yield);
+    assert!(KEYWORDS.get("print").is_none());
+    assert!(KEYWORDS.get("exec").is_none());
+    assert!(KEYWORDS.get("Is").is_none());
+    assert!(KEYWORDS.get("i").is_none());
+    assert!(KEYWORDS.get("iff").is_none());
+}
+
+static mut LEX_STRING_KIND: Option<StringKind> = None;
+static mut LEX_STRING_CALLS: u32 = 0;
+fn lex_string_recorder<T: Iterator<Item = char>>(l: &mut Lexer<T>, kind: StringKind) -> LexResult {
+    unsafe {
+        LEX_STRING_CALLS += 1;
+        LEX_STRING_KIND = Some(kind);
+    }
+    let p = l.get_pos();
+    Ok((Tok::Dot, TextRange::empty(p)))
+}
+
+/// lex_identifier on a window that starts with the CONCRETE characters `p` followed by a symbolic
+/// quote: `expect` = the kind Python's grammar gives that prefix, or None when it is not a prefix
+/// (then the characters are an ordinary name and the quote starts a separate token).
+fn prefix_case_q(p: &[char], expect: Option<StringKind>, quote: char) {
+    let (mut w, s) = any_stream();
+    for i in 0..2 {
+        if i < p.len() {
+            w[i] = Some(p[i]);
+        }
+    }
+    // concrete quote: a symbolic one makes CBMC explore the identifier-scanning path as well
+    w[p.len()] = Some(quote);
+    let start: u32 = kani::any();
+    kani::assume(start <= MAX_START);
+    unsafe {
+        LEX_STRING_CALLS = 0;
+        LEX_STRING_KIND = None;
+    }
+    let mut lxr = ManuallyDrop::new(lexer_at(w, s, start, kani::any(), kani::any()));
+    let r = ManuallyDrop::new(lxr.lex_identifier());
+    assert!(r.is_ok());
+    match expect {
+        Some(k) => unsafe {
+            assert!(LEX_STRING_CALLS == 1);
+            assert!(LEX_STRING_KIND == Some(k));
+            assert!(lxr.location.to_u32() == start); // nothing consumed before the string scanner runs
+        },
+        None => {
+            // an ordinary name of exactly these characters; the quote is left for the next token
+            assert!(unsafe { LEX_STRING_CALLS } == 0);
+            assert!(lxr.location.to_u32() == start + p.len() as u32);
+            assert!(lxr.window[0] == Some(quote));
+            match &*r {
+                Ok((Tok::Name { name }, range)) => {
+                    assert!(name.len() == p.len());
+                    assert!(range.start().to_u32() == start && range.end().to_u32() == start + p.len() as u32);
+                }
+                _ => assert!(false),
+            }
+        }
+    }
+}
+
+fn prefix_case(p: &[char], expect: Option<StringKind>) {
+    prefix_case_q(p, expect, '"');
+    prefix_case_q(p, expect, '\'');
+}
+
+macro_rules! prefixes {
+    ($name:ident, $( ($p:expr, $k:expr) ),* ) => {
+        #[kani::proof]
+        #[kani::unwind(8)]
+        #[kani::stub(Lexer::lex_string, lex_string_recorder)]
+        #[kani::stub(alloc::fmt::format, fmt_stub)]
+        fn $name() {
+            $( prefix_case(&$p, $k); )*
+        }
+    };
+}
+
+// @ob id=C06.k.prefix_dispatch_1 props=C06,C05 kind=bounded tier=quick timeout=600
+// @bound the eight one-letter prefixes r R f F u U b B, each followed by either quote; the rest of the stream symbolic (non-prefix letters take the identifier-scanning path, which builds Strings and is out of reach)
+// @clause raw prefixes in any case, the u kind marker: a one-letter prefix directly followed by a quote is handed to the string scanner with Python's kind for it, without consuming anything first
+// @fns Lexer::lex_identifier StringKind::try_from(char)
+prefixes!(c06_prefix_dispatch_1,
+    (['r'], Some(StringKind::RawString)), (['R'], Some(StringKind::RawString)),
+    (['f'], Some(StringKind::FString)), (['F'], Some(StringKind::FString)),
+    (['u'], Some(StringKind::Unicode)), (['U'], Some(StringKind::Unicode)),
+    (['b'], Some(StringKind::Bytes)), (['B'], Some(StringKind::Bytes)));
+
+// @ob id=C06.k.prefix_dispatch_2 props=C06,C05 kind=bounded tier=quick timeout=600
+// @bound the two-letter prefixes rf fR FR Rb bR Br, each followed by either quote (that ub ur bf rr are NOT prefixes is proved at the table: C06.k.prefix2)
+// @clause raw prefixes in any case and ORDER: rf fr (raw f-string) and rb br (raw bytes) in any case
+// @fns Lexer::lex_identifier StringKind::try_from([char;2])
+prefixes!(c06_prefix_dispatch_2,
+    (['r', 'f'], Some(StringKind::RawFString)), (['f', 'R'], Some(StringKind::RawFString)), (['F', 'R'], Some(StringKind::RawFString)),
+    (['R', 'b'], Some(StringKind::RawBytes)), (['b', 'R'], Some(StringKind::RawBytes)), (['B', 'r'], Some(StringKind::RawBytes)));
+
+fn fmt_stub(_a: std::fmt::Arguments<'_>) -> String {
+    String::new()
+}
+
+// @ob id=C05.k.emoji_name_step props=C05,C03 kind=complete tier=quick timeout=600
+// @clause the text under each token spells that token, on character boundaries: a character classified as emoji-presentation (classification abstracted by an arbitrary predicate, here: true) outside the dispatch table becomes a one-character Name token whose range is exactly that character's UTF-8 bytes and whose value is that character; the position advances by the same amount
+// @fns Lexer::consume_character
+#[kani::proof]
+#[kani::unwind(8)]
+#[kani::stub(unic_emoji_char::is_emoji_presentation, is_emoji_stub)]
+#[kani::stub(Lexer::lex_number, lex_number_unreachable)]
+#[kani::stub(Lexer::lex_string, lex_string_unreachable)]
+#[kani::stub(Lexer::lex_and_emit_comment, lex_comment_unreachable)]
+fn c05_emoji_name_step() {
+    let (w, s) = any_stream();
+    let start: u32 = kani::any();
+    kani::assume(start <= MAX_START);
+    let c0 = match w[0] {
+        Some(c) => c,
+        None => return,
+    };
+    kani::assume(py_longest_op(c0, Some('='), None).is_none());
+    kani::assume(!matches!(c0, '0'..='9' | '#' | '"' | '\'' | '\n' | '\r' | ' ' | '\t' | '\x0C' | '\\'));
+    unsafe {
+        EMOJI = true;
+    }
+    let mut lxr = ManuallyDrop::new(lexer_at(w, s, start, kani::any(), kani::any()));
+    let r = ManuallyDrop::new(lxr.consume_character(c0));
+    assert!(r.is_ok());
+    let l = c0.len_utf8() as u32;
+    assert!(lxr.location.to_u32() == start + l);
+    assert!(lxr.pending.len() == 1);
+    let (tok, range) = &lxr.pending[0];
+    assert!(range.start().to_u32() == start && range.end().to_u32() == start + l);
+    match tok {
+        Tok::Name { name } => {
+            assert!(name.len() == l as usize);
+            let mut tmp = [0u8; 4];
+            let enc = c0.encode_utf8(&mut tmp).as_bytes();
+            let nb = name.as_bytes();
+            for i in 0..4 {
+                if i < enc.len() {
+                    assert!(nb[i] == enc[i]);
+                }
+            }
+        }
+        _ => assert!(false),
+    }
+    kani::cover!(l == 4);
+    kani::cover!(l == 3);
+}
